@@ -7,6 +7,10 @@ C->S  Trace_ECGroup: the tiny curves are instantiated with the library's own Cur
       VerifyingKey / ECDH; every pair of group elements x Jacobian scalings through + double - * mul_add == ...,
       every (x, y) in (0..p+1)^2 as a public key in every encoding, ECDH for all key pairs.  TLC computes the
       expected result of every event from the affine law.
+      Error paths: the first multiplication of a fresh generator=True point is interrupted (a private BaseException raised
+      from a sys.settrace line event, EVERY position inside PointJacobi._maybe_precompute on the tiny curves, sampled
+      positions on all shipped curves), the exception swallowed, and later multiplications on the same object are judged
+      like any other (TLC / OpenSSL); also a refused generator (order None, AssertionError) followed by fresh valid ones.
       Trace_ECOracle: on the 17 shipped curves the library's byte strings are compared with OpenSSL's
       (k*G, P+Q, 2P, -P, mul_add, ECDH secrets both ways, accept/reject of crafted and mutated points)."""
 import os, concurrent.futures as cf
@@ -44,6 +48,9 @@ def _jac(p, pt, l):
     if pt is None:
         return ((l * l) % p, (l * l * l) % p, 0)
     return ((l * l * pt[0]) % p, (l * l * l * pt[1]) % p, l % p)
+
+
+K0_INT = 5          # multiplier of the interrupted first call in the error-path histories
 
 
 class Tiny:
@@ -102,6 +109,22 @@ class Tiny:
                 return build("jac", a, n) * k
             if via == "gen":
                 return build("jac", a, n, True) * k
+            if via.startswith("gen-int"):
+                # error-path history: the FIRST multiplication of a fresh generator=True point (which builds the table of
+                # 2^i*P lazily) is interrupted at the N-th line of _maybe_precompute; the exception is swallowed; the
+                # multiplication judged is a LATER, ordinary one on the same object (gen-int2: the second later one)
+                g = build("jac", a, n, True)
+                eclib.interrupted(eclib.precompute_code(), int(via.split(":")[1]), lambda: g * K0_INT)
+                if via.startswith("gen-int2"):
+                    g * (k + 3)
+                return g * k
+            if via == "gen-after-assert":
+                # legitimate failure first: a generator without order cannot build its table (AssertionError) ...
+                try:
+                    build("jac", a, None, True) * 5
+                except Exception:
+                    pass
+                return build("jac", a, n, True) * k          # ... a fresh valid generator must still work
             if via == "rmul":
                 return k * build("jac", a, n)
             if via == "aff":
@@ -257,6 +280,22 @@ def _record_tiny(name, tier, r):
                             if (how == "gen-both" and (kb != "jac" or pb is None)) or (how != "plain" and pa is None):
                                 continue          # precomputation tables only for finite PointJacobi generators
                             do("muladd", how + ":" + kb, ca, cb, k1, k2)
+
+        # ---------------- error path: first multiplication interrupted inside _maybe_precompute, later ones judged
+        code = eclib.precompute_code()
+        gens = [pts[0], pts[len(pts) // 2]]
+        kint = sorted({2, 3, n - 2, n - 1, n + 1, 2 * n - 1, r.randrange(4, n - 2), r.randrange(n + 2, 2 * n - 1)})
+        for gi, pg in enumerate(gens):
+            ca = _jac(p, pg, 1 if gi == 0 else 2)
+            total = eclib.interrupted(code, 0, lambda: T.build("jac", ca, n, True) * K0_INT)[1]
+            for N in range(1, total + 2):             # every line-event position, and one beyond (no interruption)
+                for k in kint:
+                    do("mul", "gen-int:%d" % N, ca, k=k)
+                do("mul", "gen-int2:%d" % N, ca, k=kint[-1])
+                do("mul", "gen-int2:%d" % N, ca, k=n - 1)
+            for k in kint:
+                do("mul", "gen-after-assert", ca, k=k)
+        rec.evs[-1]["_int_positions"] = total
 
     # ---------------- public keys: every (x, y) in (0..p+1)^2 in every encoding
     def pub(via, a3, fn):
@@ -425,6 +464,24 @@ def _oracle_curve(args):
         rel_ev("k*G NAF no order k=%d" % k, lambda: PointJacobi(c, Gx, Gy, 1) * k, k)
         if thorough or k.bit_length() <= nb // 2 or k in (n - 1, n, n + 1, 2 * n + 1):
             rel_ev("k*G affine Point k=%d" % k, lambda: Point(c, Gx, Gy, n) * k, k)
+    # error path: the first multiplication of a FRESH generator object is interrupted inside _maybe_precompute (sampled
+    # line positions), the exception swallowed; later multiplications on the same object are compared with OpenSSL
+    code = eclib.precompute_code()
+    fresh = lambda order=n: PointJacobi(c, Gx, Gy, 1, order, generator=True)
+    total = eclib.interrupted(code, 0, lambda: fresh() * 3)[1]
+    kint = [n - 2, n - 1, 2 ** (nb - 1), 2 ** (nb - 1) - 1, 3]
+    for N in sorted({2, total // 3, total // 2, total - 4, total + 5} | {r.randrange(6, total) for _ in range(6 if thorough else 2)}):
+        g = fresh()
+        hit = eclib.interrupted(code, N, lambda: g * (n // 3 + 12345))
+        for j, k in enumerate(kint):
+            rel_ev("k*G on a generator whose first multiplication was interrupted at line event %d of %d in _maybe_precompute (%s), later call %d, k=%d"
+                   % (N, total, "interrupted" if hit[0] else "not interrupted", j + 1, k), lambda: g * k, k)
+    try:
+        fresh(None) * 5                     # legitimate failure: no order, no table (AssertionError)
+    except Exception:
+        pass
+    for k in kint:
+        rel_ev("k*G on a fresh generator after a refused one (order None) k=%d" % k, lambda: fresh() * k, k)
     for a, b, k1, k2, lam in rel:
         A = lambda: PointJacobi(c, Gx, Gy, 1, n) * a            # fresh objects: * scales its operand in place
         B = lambda: cv.generator * b
@@ -897,11 +954,18 @@ def run(tier):
 
         # ---------------------------------------------------------------- canaries (binding self-test)
         canaries = {}
+        selftest = []          # failed self-tests: MachineryError only if the run is otherwise clean (a deviating library may spoil a canary)
         for nm, evs in tiny.items():
-            base = next(e for e in evs if e["op"] == ("add" if TINY[nm][6] == 1 else "pub") and e["s"] == "ok" and e["out"][0] == 0)
-            cz = dict(base)
+            cop = "add" if TINY[nm][6] == 1 else "pub"
+            base = next((e for e in evs if e["op"] == cop and e["s"] == "ok" and e["out"][0] == 0), None)
+            if base is not None:
+                cz = dict(base)
+                cz["out"] = [0, base["out"][1], (base["out"][2] + 1) % TINY[nm][0]]
+            else:
+                cz = dict(next(e for e in evs if e["op"] == cop))
+                cz["s"], cz["out"] = "ok", ([2, 0, 0] if cop == "add" else [0, TINY[nm][0], TINY[nm][0]])
             cz["tid"] = evs[-1]["tid"] + 1
-            cz["out"] = [0, base["out"][1], (base["out"][2] + 1) % TINY[nm][0]]
+            cz.pop("_hist", None)
             evs.append(cz)
             canaries[nm] = cz["tid"]
         oevs = []
@@ -912,12 +976,19 @@ def run(tier):
             for e in evs:
                 e["tid"] = len(oevs) + 1
                 oevs.append(e)
-        base = next(e for e in oevs if e["op"] == "eq")
-        cz = dict(base); cz["tid"] = len(oevs) + 1; cz["what"] = "CANARY " + base["what"]
-        cz["lib"] = list(base["lib"]); cz["lib"][-1] ^= 1
+        base = next((e for e in oevs if e["op"] == "eq" and e["lib"] == e["ref"] and e["lib"]), None)
+        if base is not None:
+            cz = dict(base); cz["lib"] = list(base["lib"]); cz["lib"][-1] ^= 1
+        else:
+            cz = dict(next(e for e in oevs if e["op"] == "eq")); cz["lib"] = []
+        cz["tid"] = len(oevs) + 1; cz["what"] = "CANARY " + cz["what"]; cz.pop("_key", None)
         oevs.append(cz)
-        base = next(e for e in oevs if e["op"] == "verdict" and e["lib"] == "reject")
-        cz2 = dict(base); cz2["tid"] = len(oevs) + 1; cz2["what"] = "CANARY " + base["what"]; cz2["lib"] = "accept"; cz2.pop("_key", None)
+        base = next((e for e in oevs if e["op"] == "verdict" and e["lib"] == "reject" and e["ref"] == "reject"), None)
+        if base is not None:
+            cz2 = dict(base); cz2["lib"] = "accept"
+        else:
+            cz2 = dict(next(e for e in oevs if e["op"] == "verdict")); cz2["lib"] = "neither"
+        cz2["tid"] = len(oevs) + 1; cz2["what"] = "CANARY " + cz2["what"]; cz2.pop("_key", None)
         oevs.append(cz2)
         ocan = {cz["tid"], cz2["tid"]}
 
@@ -932,7 +1003,7 @@ def run(tier):
             byid = {e["tid"]: e for e in evs}
             ids = {x[1] for x in rej}
             if canaries[nm] not in ids:
-                raise MachineryError("binding self-test: corrupted result on %s was accepted by Trace_ECGroup" % nm)
+                selftest.append("binding self-test: corrupted result on %s was accepted by Trace_ECGroup" % nm)
             for x in rej:
                 if x[1] == canaries[nm]:
                     continue
@@ -951,7 +1022,7 @@ def run(tier):
         rej, st = results["oracle"]
         ids = {x[1] for x in rej}
         if not ocan <= ids:
-            raise MachineryError("binding self-test: corrupted oracle event was accepted by Trace_ECOracle")
+            selftest.append("binding self-test: corrupted oracle event was accepted by Trace_ECOracle")
         byid = {e["tid"]: e for e in oevs}
         for x in rej:
             if x[1] in ocan:
@@ -973,6 +1044,8 @@ def run(tier):
                        else next(e for e in t17 if e["op"] == op and (e["k"], e["m"]) == ((2, 3) if op == "ecdh" else (0, 0))))
         rep.sample({k: v for k, v in next(e for e in oevs if e["op"] == "eqinf" and e["zero"] == 0).items() if not k.startswith("_")}, limit=8)
         rep.sample({k: v for k, v in next(e for e in oevs if e["op"] == "verdict").items() if not k.startswith("_")}, limit=8)
+    if selftest and not rep.violations:
+        raise MachineryError("; ".join(selftest))
     rep.cov["exhaustive"] = thorough
     rep.cov["explanation"] = ("group axioms / Mul / ECDH / ValidPub exhausted by TLC on each tiny curve; the library driven on every pair of "
                               "group elements (incl. infinity, equal, inverse) x Jacobian representatives (all (l1, l2) in the thorough tier "
@@ -1019,6 +1092,6 @@ def _tiny_violation(rep, nm, e, x, ctx):
                 if fixed:
                     key = "add-z1-unreduced-y"
     if key is None:
-        key = "%s:%s:%s" % (clause, e["op"], e["via"])
+        key = "%s:%s:%s" % (clause, e["op"], e["via"].split(":")[0] if e["via"].startswith("gen-int") else e["via"])
     rep.violation("C17:" + key, "%s %s via %s a=%s b=%s k=%d m=%d -> library %s %s; specification %s %s" % (
         nm, e["op"], e["via"], e["a"], e["b"], e["k"], e["m"], e["out"], e["s"], clause, detail), dict(e, curve=nm, params=TINY[nm]))
